@@ -27,8 +27,8 @@ func init() {
 
 // ---------------------------------------------------------------- helpers
 
-// nodeString prints any AST node on one line (whitespace collapsed).
-func nodeString(n ast.Node) string {
+// digNodeString prints any AST node on one line (whitespace collapsed).
+func digNodeString(n ast.Node) string {
 	var s string
 	switch x := n.(type) {
 	case ast.Expr:
@@ -212,33 +212,33 @@ func extractDigestFn(files []*ast.File, te *typeEnv, ce *constEnv,
 			continue
 		}
 		if sw == nil {
-			res.head = append(res.head, nodeString(s))
+			res.head = append(res.head, digNodeString(s))
 		} else {
-			res.tail = append(res.tail, nodeString(s))
+			res.tail = append(res.tail, digNodeString(s))
 		}
 	}
 	if sw == nil || sw.Tag == nil || sw.Init != nil {
 		fail("%s.%s: version switch not found", pkg, name)
 		return nil
 	}
-	res.tag = nodeString(sw.Tag)
+	res.tag = digNodeString(sw.Tag)
 	seenDefault := false
 	for _, c := range sw.Body.List {
 		cc := c.(*ast.CaseClause)
 		if cc.List == nil {
 			seenDefault = true
 			for _, s := range cc.Body {
-				res.dflt = append(res.dflt, nodeString(s))
+				res.dflt = append(res.dflt, digNodeString(s))
 			}
 			continue
 		}
 		dc := digestCase{}
 		for _, l := range cc.List {
-			dc.labels = append(dc.labels, nodeString(l))
+			dc.labels = append(dc.labels, digNodeString(l))
 			id, ok := l.(*ast.Ident)
 			if !ok {
 				fail("%s.%s: case label %s is not a constant name", pkg,
-					name, nodeString(l))
+					name, digNodeString(l))
 				return nil
 			}
 			dc.versions = append(dc.versions, intConst(ce, pkg, id.Name))
@@ -260,7 +260,7 @@ func extractDigestFn(files []*ast.File, te *typeEnv, ce *constEnv,
 				continue
 			}
 			if call == nil {
-				dc.pre = append(dc.pre, nodeString(s))
+				dc.pre = append(dc.pre, digNodeString(s))
 				if ds, ok := s.(*ast.DeclStmt); ok {
 					if gd, ok := ds.Decl.(*ast.GenDecl); ok && gd.Tok == token.VAR {
 						for _, sp := range gd.Specs {
@@ -274,10 +274,10 @@ func extractDigestFn(files []*ast.File, te *typeEnv, ce *constEnv,
 					}
 				}
 			} else {
-				dc.post = append(dc.post, nodeString(s))
+				dc.post = append(dc.post, digNodeString(s))
 			}
 		}
-		if call == nil || len(call.Args) < 1 || nodeString(call.Args[0]) != "&msg" ||
+		if call == nil || len(call.Args) < 1 || digNodeString(call.Args[0]) != "&msg" ||
 			call.Ellipsis.IsValid() {
 
 			fail("%s.%s case %v: no `err := codec.WriteElements(&msg, …)`",
@@ -290,10 +290,10 @@ func extractDigestFn(files []*ast.File, te *typeEnv, ce *constEnv,
 			t, ok := te.typeOf(a)
 			if !ok {
 				fail("%s.%s case %v: static type of %s not resolvable", pkg,
-					name, dc.labels, nodeString(a))
+					name, dc.labels, digNodeString(a))
 				t = "?"
 			}
-			dc.args = append(dc.args, digestArg{nodeString(a), t})
+			dc.args = append(dc.args, digestArg{digNodeString(a), t})
 		}
 		te.locals = saved
 		res.cases = append(res.cases, dc)
@@ -421,14 +421,14 @@ func genCodecFacts() {
 		cc := c.(*ast.CaseClause)
 		var body []string
 		for _, s := range cc.Body {
-			body = append(body, nodeString(s))
+			body = append(body, digNodeString(s))
 		}
 		if cc.List == nil {
 			rows = append(rows, fmt.Sprintf("  (%q, %q)", "default", strings.Join(body, "; ")))
 			continue
 		}
 		for _, t := range cc.List {
-			rows = append(rows, fmt.Sprintf("  (%q, %q)", nodeString(t), strings.Join(body, "; ")))
+			rows = append(rows, fmt.Sprintf("  (%q, %q)", digNodeString(t), strings.Join(body, "; ")))
 		}
 	}
 	l.p("%s", strings.Join(rows, ",\n"))
